@@ -13,6 +13,7 @@ def dispatch (op : String) (payload : Json) : R Json :=
   | "names" => C10.handle payload
   | "naming_sites" => C10.handleSites payload
   | "locator" => C13.handle payload
+  | "import_walk" => C13.handleWalk payload
   | "cache_gate" => C19.handleGate payload
   | "cache_history" => C19.handleHistory payload
   | "ser" => C18.handleSer payload
